@@ -272,6 +272,11 @@ def run(s):
     sub = core.SubSession(s, lambda n: n.replace("C08.", "C05.filling."), lambda n: n.startswith("C08.relations_equal_invariants["))
     sub.__dict__["relations_only"] = True
     sub.run(C08)
+    # ... and the filling is applied through the EFFECTIVE configuration (user names the system, the packaged defaults supply the tolerances): every tabulated component, also
+    # one that is tiny next to the largest modulus, must come out of it unchanged (it is then a key of the results) -- C14's obligation on that route, registered here as well
+    from props import C14
+    s.oblige("C05.filling.through_effective_configuration_keeps_every_tabulated_component", lambda: C14.filling_through_configuration(s.seed, s.tier),
+             ["calculator.Calculator._apply_elastic_constants_symmetry", "elast_dat.apply_symetry_on_elast_data", "fill.fill_cij", "cij/data/default/settings.yaml"], kind="finite")
     # the totals are DELIVERED through the writer rules (keyword -> quantity, file name, unit): C15's registry and writer-path obligations, registered here as well
     core.SubSession(s, lambda n: n.replace("C15.", "C05.delivery."), lambda n: n in ("C15.registry", "C15.writer_paths")).run(C15)
     end_to_end(s)
